@@ -108,6 +108,8 @@ class Kernel:
             return z3.BitVecVal(v, b)
         if txt.startswith('"'):
             return Str(txt)
+        if re.search(r'NonZero::<u32>::MIN$', txt):
+            return nonzero(z3.BitVecVal(1, 32))
         if txt.startswith('ZeroSized') or txt == '()':
             return Struct('ZST', [])
         m = re.match(r'\{transmute\((0x[0-9a-f]+)\): (.+)\}$', txt)
